@@ -1084,6 +1084,13 @@ def enum_scenarios(dataset: dict, args_idx: int, size: int, mode: str, chunk: in
                 for kind in kinds:
                     if kind == 'truncate' and k >= size:
                         continue
+                    if kind == 'bitflip':  # E4: every bit of byte k
+                        if k >= size:
+                            continue
+                        for bit in range(8):
+                            ops.append({'op': 'DAMAGE', 'target': dict(key), 'kind': 'bitflip', 'k': k, 'seed': bit})
+                            ops.append({'op': 'LOAD', **key, 'fault': None})
+                        continue
                     ops.append({'op': 'DAMAGE', 'target': dict(key), 'kind': kind, 'k': k})
                     ops.append({'op': 'LOAD', **key, 'fault': None})
                     ops.append({'op': 'LOAD', **key, 'fault': None})
@@ -1160,6 +1167,9 @@ def plan_enumeration(tier: str, batch_seed: int, plandir: str):
             jobs += enum_scenarios(d, args_idx, size, m, chunk=24, stride=stride)
             if m == 'E1' and tier == 'thorough':
                 jobs += enum_scenarios(d, args_idx, size, 'E1', chunk=24, stride=7, kinds=('zero_tail', 'ff_tail'))
+                if wi % 3 == 0:  # E4: single-bit flips, every bit of every 3rd byte, one world per format
+                    jobs += enum_scenarios(d, args_idx, size, 'E1', chunk=8, stride=3, kinds=('bitflip',))
+                    w['bitflip_bytes'] = len(range(0, size, 3))
     if tier == 'quick':
         # one world whose coordinate array exceeds 1 MiB (cache written in several write() calls): a few offsets only
         big = worlds.gen_dataset_params(rng, fmt='lammps', big=True)
